@@ -474,7 +474,11 @@ func (e *Exec) loopHead(fr *frame, st *State, li *loopInfo, c *Contract, setVari
 		}
 		g, ok := e.evalSpec(st, c.PkgPath, cl.GenFn, args, entry)
 		if ok {
+			n0 := len(e.obls)
 			e.oblige(st, "inv.init", fmt.Sprintf("inv.init.%d.%s", li.ord, clauseName(cl, i)), g, where)
+			if tp := taggedWith(c, cl.Props); len(tp) > 0 && len(e.obls) > n0 {
+				e.obls[len(e.obls)-1].Props = tp
+			}
 		}
 	}
 	// havoc
@@ -576,7 +580,11 @@ func (e *Exec) loopHead(fr *frame, st *State, li *loopInfo, c *Contract, setVari
 			continue
 		}
 		if cl.Kind == "invariant" {
+			// an invariant stated for property P in a function with a precondition stated for P rests on it:
+			// known (and, below, checked) in P's run only
+			e.curAssumeProps = taggedWith(c, cl.Props)
 			e.assume(st, g)
+			e.curAssumeProps = nil
 		} else if cl.Kind == "decreases" {
 			variants = append(variants, e.smt.define("variant", g))
 		}
@@ -629,7 +637,11 @@ func (e *Exec) backEdge(fr *frame, st *State, li *loopInfo, c *Contract, variant
 			if cl.Assumed {
 				continue
 			}
+			n0 := len(e.obls)
 			e.oblige(st, "inv.preserve", fmt.Sprintf("inv.preserve.%d.%s", li.ord, clauseName(cl, i)), g, where)
+			if tp := taggedWith(c, cl.Props); len(tp) > 0 && len(e.obls) > n0 {
+				e.obls[len(e.obls)-1].Props = tp
+			}
 		} else if cl.Kind == "decreases" && vi < len(variants) {
 			v0 := variants[vi]
 			vi++
